@@ -66,11 +66,22 @@ Section Run.
 
   Definition yen_fuel (k : nat) : nat := k + 2.
 
-  Definition run_with (fuel : nat) (w : world N) (q : kq) (f : simfn N) : res (sresult N N) :=
+  (* SearchAlgorithm::{KspSingleVia, Yens}::run_vertex_oriented(s, target) *)
+  Definition run_with_at (fuel : nat) (w : world N) (q : kq) (f : simfn N) (s : nat) (target : option nat)
+    : res (sresult N N) :=
     Ksp.run_vertex_oriented (C:=N) (St:=N) ltb add zero (pos N) (graph_of N w) (traverse N w Forward) (Ok (w_init N w))
       (search fuel w q) (spur_search fuel w q) (sim_of w f) (pop_min (C:=N) ltb)
       (kq_alg q) (yen_fuel (match ksp_query_k (kq_k q) (kq_qk q) with Ok k => k | _ => 0 end))
-      (kq_k q) (kq_qk q) (kq_term q) (kq_source q) (kq_target q).
+      (kq_k q) (kq_qk q) (kq_term q) s target.
+  Definition run_with (fuel : nat) (w : world N) (q : kq) (f : simfn N) : res (sresult N N) :=
+    run_with_at fuel w q f (kq_source q) (kq_target q).
+
+  (* the same algorithm through SearchAlgorithm::run_edge_oriented: [kq_source] / [kq_target] are EDGE ids; the
+     vertex-oriented k-shortest-paths run is started between the origin edge's end and the destination edge's start *)
+  Definition run_edge_with (fuel : nat) (w : world N) (q : kq) (f : simfn N) : res (sresult N N) :=
+    Search.run_edge_oriented (C:=N) (St:=N) zero (graph_of N w) (traverse N w) (Ok (w_init N w)) Forward
+      (run_with_at fuel w q f) (kq_source q) (kq_target q).
+  Definition run_edge (fuel : nat) (w : world N) (q : kq) : res (sresult N N) := run_edge_with fuel w q (kq_sim q).
 
   Definition run (fuel : nat) (w : world N) (q : kq) : res (sresult N N) := run_with fuel w q (kq_sim q).
 
@@ -83,17 +94,22 @@ Section Run.
     | KYens => n_routes (run fuel w q)
     end.
 
+  Definition aa_count_edge (fuel : nat) (w : world N) (q : kq) : nat :=
+    match kq_alg q with
+    | KSingleVia => n_routes (run_edge_with fuel w q SAcceptAll)
+    | KYens => n_routes (run_edge fuel w q)
+    end.
+
   (* ---- ties: an underlying search popped among equal priorities, or two intersection entries cost the same ---- *)
   Fixpoint has_equal (l : list (nat * N)) : bool :=
     match l with
     | [] => false
     | x :: r => existsb (fun y => negb (ltb (snd x) (snd y)) && negb (ltb (snd y) (snd x))) r || has_equal r
     end.
-  Definition has_tie (fuel : nat) (w : world N) (q : kq) : bool :=
-    match kq_target q with
+  Definition has_tie_at (fuel : nat) (w : world N) (q : kq) (s : nat) (target : option nat) : bool :=
+    match target with
     | None => false
     | Some t =>
-        let s := kq_source q in
         vertex_ties N fuel w (uq q Forward s t) s (Some t)
         || match kq_alg q with
            | KYens => false
@@ -109,12 +125,32 @@ Section Run.
                   end
            end
     end.
+  Definition has_tie (fuel : nat) (w : world N) (q : kq) : bool := has_tie_at fuel w q (kq_source q) (kq_target q).
+  (* edge-oriented: the vertex pair the k-shortest-paths run is started with (none when the two query edges are
+     equal or adjacent) *)
+  Definition edge_pair (w : world N) (q : kq) : option (nat * nat) :=
+    match get_edge (graph_of N w) (kq_source q), kq_target q with
+    | Some e1, Some te =>
+        match get_edge (graph_of N w) te with
+        | Some e2 => if Nat.eqb (kq_source q) te || Nat.eqb (edst e1) (esrc e2) then None else Some (edst e1, esrc e2)
+        | None => None
+        end
+    | _, _ => None
+    end.
+  Definition has_tie_edge (fuel : nat) (w : world N) (q : kq) : bool :=
+    match edge_pair w q with
+    | Some (s, t) => has_tie_at fuel w q s (Some t)
+    | None => false
+    end.
 
   Context `{ShowNum N}.
 
   Definition line_M (fuel : nat) (id : Z) (w : world N) (q : kq) (detail : nat) : string :=
     line "M" id (if has_tie fuel w q then "TIE"
                  else show_outcome N (outcome_of N (run fuel w q)) detail ++ " aa=" ++ show_nat (aa_count fuel w q)).
+  Definition line_ME (fuel : nat) (id : Z) (w : world N) (q : kq) (detail : nat) : string :=
+    line "M" id (if has_tie_edge fuel w q then "TIE"
+                 else show_outcome N (outcome_of N (run_edge fuel w q)) detail ++ " aa=" ++ show_nat (aa_count_edge fuel w q)).
 End Run.
 
 (* ---------------------------------------------------------------- the checker line *)
@@ -202,5 +238,77 @@ Definition line_S (id : Z) (w : world FN) (q : kq FN) (simq : simfn Q) (pi : lis
                | Some why => "REJECT(" ++ why ++ ") " ++ show_outcome FN o 0
                end).
 
+(* ---- edge-oriented queries: every route is  origin edge :: inner route ++ [destination edge]  where the origin hop
+        carries the initial state at zero cost, the destination hop repeats the state of the hop before it at zero cost,
+        and the inner routes are judged by [check_case] as the answer to the vertex query between the origin edge's end
+        and the destination edge's start.  [pi] is the certificate for that start vertex. ---- *)
+Definition hop := (nat * float * float * float)%type.
+Definition is_zero (f : float) : bool := Qeq_bool (Q_of_float f) 0.
+Fixpoint strip_last (r : list hop) : option (list hop * hop) :=
+  match r with
+  | [] => None
+  | [x] => Some ([], x)
+  | x :: r' => match strip_last r' with Some (l, y) => Some (x :: l, y) | None => None end
+  end.
+(* Some inner = the wrapper is right *)
+Definition unwrap_route (init : float) (e1 e2 : nat) (r : list hop) : option (list hop) :=
+  match r with
+  | (e, ac, tc, st) :: rest =>
+      if negb (Nat.eqb e e1 && is_zero ac && is_zero tc && Qeq_bool (Q_of_float st) (Q_of_float init)) then None else
+      match strip_last rest with
+      | Some (inner, (e', ac', tc', st')) =>
+          match strip_last inner with
+          | Some (_, (_, _, _, stp)) =>
+              if Nat.eqb e' e2 && is_zero ac' && is_zero tc' && Qeq_bool (Q_of_float st') (Q_of_float stp)
+              then Some inner else None
+          | None => None
+          end
+      | None => None
+      end
+  | [] => None
+  end.
+Fixpoint unwrap_all (init : float) (e1 e2 : nat) (rs : list (list hop)) : option (list (list hop)) :=
+  match rs with
+  | [] => Some []
+  | r :: rest => match unwrap_route init e1 e2 r, unwrap_all init e1 e2 rest with
+                 | Some x, Some l => Some (x :: l)
+                 | _, _ => None
+                 end
+  end.
+
+Definition check_case_edge (w : world FN) (q : kq FN) (simq : simfn Q) (pi : list (option float)) (optimal : bool)
+           (o : outcome FN) (aa : nat) : option string :=
+  let st := o_status FN o in
+  if String.eqb st "Panic" || String.eqb st "Hang" then Some "crash" else
+  match get_edge (graph_of FN w) (kq_source FN q) with
+  | None => None                                                   (* unknown origin edge: C01 *)
+  | Some e1 =>
+      let at_vertices (t : option nat) :=
+        mkKQ FN (kq_alg FN q) (kq_under FN q) (kq_wf FN q) (kq_k FN q) (kq_qk FN q) (kq_term FN q) (kq_sim FN q) (edst e1) t in
+      match kq_target FN q with
+      | None => check_case w (at_vertices None) simq pi optimal o aa
+      | Some te =>
+          match edge_pair FN w q with
+          | None => None                                           (* unknown / same / adjacent query edges: C01 *)
+          | Some (s, t) =>
+              if negb (String.eqb st "Ok") then check_case w (at_vertices (Some t)) simq pi optimal o aa
+              else match unwrap_all (w_init FN w) (kq_source FN q) te (o_routes FN o) with
+                   | None => Some "origin/destination hop"
+                   | Some inner =>
+                       check_case w (at_vertices (Some t)) simq pi optimal
+                         (mkO FN st (o_iters FN o) (o_trees FN o) inner) aa
+                   end
+          end
+      end
+  end.
+
+Definition line_SE (id : Z) (w : world FN) (q : kq FN) (simq : simfn Q) (pi : list (option float)) (optimal : bool)
+           (o : outcome FN) (aa : nat) (detail : nat) : string :=
+  line "S" id (match check_case_edge w q simq pi optimal o aa with
+               | None => show_outcome FN o detail ++ " aa=" ++ show_nat aa
+               | Some why => "REJECT(" ++ why ++ ") " ++ show_outcome FN o 0
+               end).
+
 Definition line_MF := line_M FN cos_ge_F.
+Definition line_MEF := line_ME FN cos_ge_F.
 End KR.
